@@ -9,10 +9,10 @@ def run(ctx):
     ctx.forbidden_scan()
     if not ctx.build_driver():
         return
-    if ctx.lake_each(["AvoVerif.Props.C10", "AvoVerif.Props.C10Tables"]):
+    if ctx.lake_each(["AvoVerif.Props.C10", "AvoVerif.Props.C10Tables", "AvoVerif.Props.C10Sim"]):
         ctx.audit("C10")
     if ctx.tier == "thorough":
-        ctx.leanchecker(["AvoVerif.Props.C10", "AvoVerif.Props.C10Tables"])
+        ctx.leanchecker(["AvoVerif.Props.C10", "AvoVerif.Props.C10Tables", "AvoVerif.Props.C10Sim"])
     nt = lambda req, resp: req.startswith("accept-cleanup") and len(req.split(" => ")[0].split()) > len(resp.split()) + 6
     n = 2500 if ctx.tier == "quick" else 60000
     ctx.differential("c10", n, nontrivial=nt)
@@ -23,4 +23,4 @@ def run(ctx):
                             "and a semantic acceptor (result is a sublist; every deleted instruction is a jump to the very next instruction "
                             "or a plain GP self-move; every surviving instruction has the same successors after contracting the deleted ones)")
     ctx.assumptions += ["register-to-register MOV semantics (execMov) is hand-written from the Intel SDM: MOVL zero-extends, MOVQ xmm,xmm clears bits 64-127",
-                        "a full stuttering-simulation theorem for jump removal is not proved; the lemma pruned_jump_goes_to_next plus the per-run CFG-contraction acceptor stand for it"]
+                        "self-move removal is proved per instruction (no architectural effect), not as a whole-program stuttering simulation; jump and label removal are proved as lock-step simulations (pruneJumps_run, pruneLabels_step)"]
